@@ -167,7 +167,8 @@ pub fn untag_text(v: &Value, out: &mut String) {
                 if i > 0 {
                     out.push(',');
                 }
-                out.push_str(&serde_json::to_string(k.as_str().unwrap()).unwrap());
+                let key = if k.is_array() { tokens_str(k) } else { k.as_str().unwrap().to_string() };
+                out.push_str(&serde_json::to_string(&key).unwrap());
                 out.push(':');
                 untag_text(x, out);
             }
@@ -245,7 +246,8 @@ pub fn schema_text(s: &Value, out: &mut String) {
         let k = k.as_str();
         if k == "ref" {
             push_key(out, &mut first, "$ref");
-            let r = v.as_str().unwrap();
+            let rs = if v.is_array() { tokens_str(v) } else { v.as_str().unwrap().to_string() };
+            let r = rs.as_str();
             let t = if r == "#" {
                 "#".to_string()
             } else {
